@@ -1,6 +1,10 @@
+pub mod c01;
+pub mod c04;
 pub mod c05;
 pub mod c06;
 pub mod c07;
+pub mod c08;
+pub mod c11;
 pub mod c17;
 pub mod c18;
 pub mod roundtrip;
@@ -10,6 +14,16 @@ use crate::runner::{Campaign, PropertyRun};
 pub fn property(id: &str) -> Option<PropertyRun> {
     let window_note = "window mode: quantifiers relativised to a finite window of the standard domain (sound for purely logical laws)".to_string();
     Some(match id {
+        "C01" => PropertyRun {
+            id: id.into(),
+            parts: vec![Box::new(Campaign(c01::C01)), Box::new(Campaign(c01::Equilibrium))],
+            assumptions: vec!["reference semantics: floor division/modulo defined for positive divisors only (the behaviour tau_star.rs documents)".into(), "finite extents; only definite verdicts of the exact evaluator and of the reference semantics are compared".into()],
+        },
+        "C04" => PropertyRun {
+            id: id.into(),
+            parts: vec![Box::new(Campaign(c04::C04)), Box::new(Campaign(c04::Refusal))],
+            assumptions: vec!["tightness as reported by anthem defines the domain (its exactness is C11's subject)".into(), "exact mode, finite extents; only definite verdicts are compared".into()],
+        },
         "C05" => PropertyRun {
             id: id.into(),
             parts: vec![Box::new(Campaign(c05::C05))],
@@ -30,6 +44,16 @@ pub fn property(id: &str) -> Option<PropertyRun> {
             parts: vec![Box::new(Campaign(c07::C07))],
             assumptions: vec!["exact mode: only definite verdicts over the infinite standard domain are compared; cases with an unknown verdict are counted as skipped".into(), "finite predicate extents".into()],
         },
+        "C08" => PropertyRun {
+            id: id.into(),
+            parts: vec![Box::new(Campaign(c08::C08))],
+            assumptions: vec!["exact mode, finite extents; only definite verdicts are compared".into()],
+        },
+        "C11" => PropertyRun {
+            id: id.into(),
+            parts: vec![Box::new(Campaign(c11::Analyses))],
+            assumptions: vec!["regularity follows res/manual/src/analyze.md; unary minus is read as subtraction from 0".into()],
+        },
         "C14" => PropertyRun {
             id: id.into(),
             parts: vec![Box::new(Campaign(roundtrip::C14))],
@@ -49,4 +73,4 @@ pub fn property(id: &str) -> Option<PropertyRun> {
     })
 }
 
-pub const ALL: &[&str] = &["C05", "C06", "C07", "C14", "C15", "C17", "C18"];
+pub const ALL: &[&str] = &["C01", "C04", "C05", "C06", "C07", "C08", "C11", "C14", "C15", "C17", "C18"];
